@@ -77,7 +77,7 @@ CHECKS["C14"] = {
     "units": [
         {"pkg": "gbnprop", "run": "TestC14Enum", "kind": "plain"},
         {"pkg": "gbnprop", "run": "TestC14Rapid", "checks": (4000, 40000), "shards": (1, 8), "timeout": (900, 5400), "gomaxprocs": [16, 1, 2, 4]},
-        {"pkg": "gbnprop", "run": "TestC14Polling", "checks": (60, 600), "shards": (1, 4), "timeout": (900, 5400), "gomaxprocs": [16, 2, 4, 1]},
+        {"pkg": "gbnprop", "run": "TestC14Polling", "checks": (60, 300), "shards": (1, 4), "timeout": (900, 5400), "gomaxprocs": [16, 2, 4, 1]},
     ],
 }
 
